@@ -409,6 +409,22 @@ PROPS["C10"] = dict(
     thorough=[c10(2, 3, 0, 3000), c10(1, 2, 1, 3000), c10(2, 4, 0, 3000)],
 )
 
+def c18(k, cancel, preempt=2, timeout=1800):
+    return spec("H-C18a[%d,%d|p%d]" % (k, cancel, preempt), "./pkg/engine/datasource/graphql_datasource/subscriptionclient/transport", ["wsclient/c18_dispatch.go"], "VerifC18Dispatch", [k, cancel],
+                "real wsConnection (subscribe, readLoop, dispatch, removeSub, unsubscribe, shutdown) with two subscriptions on one connection; %d upstream wire messages, each solver-chosen (data/complete/error for A or B, data for an unknown id, pong), then silence or a read failure (solver-chosen)%s; every interleaving at visible operations with <=%d preemptions" % (k, "; the client cancels A at any point" if cancel else "", preempt),
+                ["checked"], timeout=timeout, preempt=preempt)
+
+PROPS["C18"] = dict(
+    title="Upstream subscription connections are multiplexed without cross-talk",
+    level_text="bounded model checking of the real per-connection multiplexer under the engine scheduler: for every sequence of upstream messages and every interleaving with a client-side cancel, each subscription receives exactly the messages addressed to it, in upstream order, up to its own terminal message; complete/error for one subscription does not end the other; subscriptions still active when the connection ends get exactly one connection error and none after their own terminal message; the connection is closed once the last subscription is gone and stays open while one is active",
+    level_note="partial: only the dispatch layer of one established WebSocket connection is covered. Not covered (stated, not claimed): connection sharing and its key (connKey over endpoint/protocol/headers/init payload), dial coalescing and cancellation while dialling (getOrDial/dial need a live websocket handshake), the wire protocols' JSON decoding (protocol package reads through coder/websocket), ping/pong liveness and idle timers (timers never fire), and the whole SSE transport. The protocol.Protocol boundary is stubbed; (*websocket.Conn).Close is intercepted; bounds: 2 subscriptions, k<=3 messages, preemption bound 2; trusted base: gosym scheduler",
+    design_ref="DESIGN.md §4 C18",
+    assumptions=["A-DRF", "idleTimeout = 0 (the connection is closed as soon as it is empty)"],
+    stubs=["protocol.Protocol: scripted upstream", "*websocket.Conn: zero object in the engine (Close intercepted), loopback connection in the native replay"],
+    quick=[c18(3, 0), c18(2, 1)],
+    thorough=[c18(3, 1, 2, 3000), c18(4, 0, 2, 3000)],
+)
+
 NOT_APPLICABLE = {
     "C20": "The gRPC datasource's data path runs on protoreflect/dynamicpb/protocompile (reflection, unsafe, generated descriptors); no SSA->SMT encoding of it is within reach of the engine built here, and the property is about exactly that path (DESIGN.md §5).",
 }
